@@ -989,10 +989,8 @@ impl BRC20ProgEngine {
         if current_block_height - latest_valid_block_number > MAX_REORG_HISTORY_SIZE {
             return Err("Latest valid block number is too far behind current block height".into());
         }
-        if latest_valid_block_number == current_block_height {
-            return Ok(());
-        }
-
+        // A reorg to the current height is not skipped: a reorg that died half-way may have left
+        // rows above the recorded height on disk, and this pass is what removes them
         self.db.write_fn(|db| db.reorg(latest_valid_block_number))
     }
 
